@@ -1,5 +1,7 @@
 package schema
 
+import "fmt"
+
 // MockCompilable reports whether every response message of s (transitively) only uses field
 // shapes for which the mock generator emits assignments that type-check today. It mirrors the
 // open finding KF-C20-1 and is only consulted while that finding is open.
@@ -68,6 +70,7 @@ func MockCompilable(s *Schema) bool {
 // shape it handles (construction instead of rejecting nine schemas out of ten); fields of child messages
 // get examples too, and a response may refer to the same child type twice.
 func (g *gen) mockShape() {
+	g.mockDeepChain()
 	msgs := g.s.AllMessages()
 	seen := map[string]bool{}
 	sanitize := g.avoid("mock_unsupported_fields")
@@ -159,4 +162,57 @@ func mockSanitize(m *Message) {
 		}
 	}
 	m.Oneofs = keep
+}
+
+// mockDeepChain hangs, for one schema in three, a chain of five to seven singular message hops below the first
+// response type; every level carries a string with declared examples. The mock walks response graphs
+// recursively: what it does at depth one it must do at depth six.
+func (g *gen) mockDeepChain() {
+	if !g.oneIn(3, "deepchain") {
+		return
+	}
+	var top *Message
+	var topFQ string
+	for _, f := range g.s.Files {
+		for _, sv := range f.Services {
+			for _, m := range sv.Methods {
+				if top == nil && g.msgDefs[m.Output] != nil {
+					top, topFQ = g.msgDefs[m.Output], m.Output
+				}
+			}
+		}
+	}
+	if top == nil || g.feature[topFQ] != "" || isRootUnwrapMsg(top) {
+		return
+	}
+	names := map[string]bool{}
+	maxNum := int32(0)
+	for _, f := range top.Fields {
+		names[f.Name] = true
+		if f.Number > maxNum {
+			maxNum = f.Number
+		}
+	}
+	if names["deep_chain"] {
+		return
+	}
+	depth := g.intn(5, 7, "deepchainlen")
+	var fqs []string
+	for i := 0; i < depth; i++ {
+		name := g.uniqueShort(fmt.Sprintf("Hop%d", i+1))
+		m := &Message{Name: name}
+		fq := g.s.Pkg + "." + name
+		label := &Field{Name: "label", Number: 1, Kind: KString, Card: Singular}
+		label.EnsureAnn().Examples = []string{fmt.Sprintf("hop %d", i+1), "alpha"}
+		m.Fields = append(m.Fields, label)
+		g.msgDefs[fq] = m
+		g.s.Files[0].Messages = append(g.s.Files[0].Messages, m)
+		fqs = append(fqs, fq)
+	}
+	for i := 0; i+1 < depth; i++ {
+		m := g.msgDefs[fqs[i]]
+		m.Fields = append(m.Fields, &Field{Name: "next", Number: 2, Kind: KMessage, TypeRef: fqs[i+1], Card: Singular})
+	}
+	top.Fields = append(top.Fields, &Field{Name: "deep_chain", Number: maxNum + 1, Kind: KMessage, TypeRef: fqs[0], Card: Singular})
+	g.tagf("mock:deep_chain:%d", depth)
 }
